@@ -17,7 +17,7 @@ RULE = ('part A: every pattern of length<=L over {a b _ . * ? [ ] !} against eve
         'a rule list is one distinct case.')
 ASSUME = ['reference matcher vf/ref/glob_ref.py is a correct reading of the manual',
           'forms the manual does not define (ranges, ^, backslash, unclosed [, empty set, ] first) are executed but not compared']
-DECIDING = {'pairs_compared': 100000, 'privacy_queries': 5000, 'reexported_queries': 100}
+DECIDING = {'pairs_compared': 100000, 'privacy_queries': 5000, 'reexported_queries': 100, 'privacy_queries_after_move': 1000}
 CPU_S = 600
 
 PALPHA = 'ab_.*?[]!'
@@ -32,7 +32,9 @@ def _all_strings(alpha: str, maxlen: int) -> List[str]:
 
 
 POOL = ['pkg._impl', 'pkg._impl.Base', 'pkg.Moved', 'pkg._impl.Moved', '**', 'pkg.*', 'pkg.**', '**._*', '*',
-        'pkg._impl.*', '**.__*__', 'pkg.?ub.*', 'pkg.[!_]*', 'pkg.pub.func', 'pkg.[_p]*.[BM]*', '**.Base.*']
+        'pkg._impl.*', '**.__*__', 'pkg.?ub.*', 'pkg.[!_]*', 'pkg.pub.func', 'pkg.[_p]*.[BM]*', '**.Base.*',
+        # names that exist only after Base has been moved (see the end of _run_B), and one that exists only before
+        'pkg.pub.Relocated._priv', 'pkg.pub.Relocated.*', 'pkg._impl.Base.meth']
 LEVELS = ['PUBLIC', 'PRIVATE', 'HIDDEN']
 
 SRC_INIT = '''
@@ -280,6 +282,21 @@ def _run_B(case: Dict[str, Any], res: core.Res) -> None:
             if o.isVisible != vis_exp:
                 res.v('C13:visible', f'{fn}: isVisible={o.isVisible}, expected {vis_exp} under {texts}', rules=texts, obj=fn)
         res.c('evaluations', len(objs))
+        # privacy is a function of the qualified name: after every object was asked once, a class is moved (the documented
+        # Documentable.reparent, as a later re-export would) and it and its members are asked again under their new names
+        base, pub = system.allobjects.get('pkg._impl.Base'), system.allobjects.get('pkg.pub')
+        if base is not None and pub is not None:
+            base.reparent(pub, 'Relocated')
+            todo = [base]
+            while todo:
+                o = todo.pop()
+                todo.extend(o.contents.values())
+                fn = o.fullName()
+                exp = glob_ref.ref_privacy(fn, o.name, rules)
+                got = o.privacyClass.name
+                res.c('privacy_queries_after_move')
+                if got != exp:
+                    res.v('C13:privacy-after-move', f'{fn} (moved from pkg._impl.Base after its privacy had been asked): privacyClass={got}, manual says {exp} under rules {texts}', rules=texts, obj=fn)
     res.sample({'rules': texts, 'objects': len(objs)})
 
 
